@@ -244,6 +244,11 @@ class Check(object):
             forced_decisions=total.forced,
             infeasible_pruned=total.pruned,
             shadow_runs=total.shadow_runs,
+            second_solver_crosschecks=total.crosschecks,
+            second_solver_inconclusive=total.crosscheck_timeouts,
+            second_solver_note=("every %s-th solver-decided obligation (path condition + negated obligation) exported "
+                                "as SMT-LIB2 and re-decided by the z3 4.8.12 and cvc5 1.0 binaries; any disagreement "
+                                "is an engine error" % os.environ.get("VERIF_CROSSCHECK", "0")),
             coverage_goals=total.goals,
             coverage_goals_required=self.goals_required,
             known_findings_seen=total.known,
